@@ -255,6 +255,7 @@ func New(opts ...Option) (Initial, error) {
 
 	err = s.rx.setOptions(
 		rdLog(s.log),
+		rdQuit(s.quit),
 		rdOnConnClose(s.onConnectionClose),
 		rdProcessIncoming(s.processIncoming),
 	)
